@@ -33,3 +33,5 @@ pub mod dia_faults;
 mod gen_dia;
 #[cfg(verif_dialect)]
 pub mod dia_user;
+#[cfg(verif_dialect)]
+mod dia_evil;
